@@ -33,12 +33,12 @@ LAYOUT_CORE = [None, "core", "pk.core", "pk.shared.core", "pk.a.b.core"]
 LAYOUT_RELATED = [("acme.api", "api_core"), ("acme.api", "acme.api_core"), ("api", "api_core"), ("pk.core_client", "pk.core"), ("pk.cli", "pk.cli_core"),
                   ("acme.date", None), ("acme.json", "acme.json_core"), ("acme.typing", "typing_core")]
 NAMING = ["operationId", "clean", "path"]
-STATUS_MENU = ["200", "201", "202", "204", "206", "302", "400", "404", "422", "500", "503", "default"]
+STATUS_MENU = ["200", "201", "202", "204", "206", "302", "400", "404", "418", "422", "499", "500", "503", "520", "599", "default"]
 RESP6 = ["none", "json-model", "json-array-model", "json-string", "text-plain", "octet"]
 
 
 def op_cases(tier):
-    out = []
+    out = [c for g in ops.shared_item_groups() for c in g]   # first, so that each group stays inside one pack (one document)
     P = ops.param
     locs = ["path", "query", "header", "cookie"]
     if tier == "quick":
@@ -94,7 +94,7 @@ def cases(tier, seed):
     out = []
     # (d) layouts first (slowest single cases)
     doc_names = docs.names()
-    lay_docs = ["petstore", "streams", "codes"] if tier == "quick" else doc_names
+    lay_docs = ["petstore", "streams", "codes", "unions"] if tier == "quick" else doc_names
     for o in LAYOUT_OUT:
         for c in LAYOUT_CORE:
             for ns in NAMING:
